@@ -32,6 +32,10 @@ type Scenario struct {
 	Prelude []model.Op
 	// Skeleton, if set, replaces the BFS: see RunSkeleton
 	Skeleton *Skeleton
+	// Metamorphic (C15): a rule hit owned by ANOTHER property is re-run on the same
+	// history with the maintenance jobs removed; if it disappears, the jobs changed
+	// what clients observe and the hit is a violation of this scenario's property
+	Metamorphic bool
 }
 
 const Bucket = 100 * time.Millisecond
@@ -398,6 +402,8 @@ type Stats struct {
 	Wall        float64
 	Samples     [][]string
 	ForeignEx   []Violation
+	foreignAll  []Violation
+	Promoted    int
 }
 
 type proc struct {
@@ -582,6 +588,9 @@ func Explore(sc *Scenario, exe string, workerArgs []string, nWorkers int, deadli
 									viol = append(viol, Violation{Scen: sc.ID, Path: path, Hit: h})
 								} else {
 									st.Foreign[h.Rule]++
+									if sc.Metamorphic && len(st.foreignAll) < 200 && len(h.Props) > 0 {
+										st.foreignAll = append(st.foreignAll, Violation{Scen: sc.ID, Path: path, Hit: h})
+									}
 									if len(st.ForeignEx) < 8 {
 										st.ForeignEx = append(st.ForeignEx, Violation{Scen: sc.ID, Path: path, Hit: h})
 									}
@@ -614,6 +623,42 @@ func Explore(sc *Scenario, exe string, workerArgs []string, nWorkers int, deadli
 		}
 		if !st.Exhaustive {
 			break
+		}
+	}
+	// metamorphic promotion
+	if sc.Metamorphic && fatal == nil {
+		for _, fv := range st.foreignAll {
+			var plain []string
+			hadJob := false
+			for _, l := range fv.Path {
+				if strings.HasPrefix(l, "job(") {
+					hadJob = true
+					continue
+				}
+				plain = append(plain, l)
+			}
+			if !hadJob {
+				continue
+			}
+			res, err := procs[0].do(Task{Scen: sc.ID, Path: plain, PathOnly: true})
+			if err != nil || res.Err != "" {
+				continue
+			}
+			still := false
+			for _, s := range res.Succ {
+				for _, h := range s.Hits {
+					if h.Rule == fv.Hit.Rule {
+						still = true
+					}
+				}
+			}
+			if !still {
+				h := fv.Hit
+				h.Props = append(append([]string{}, h.Props...), sc.Prop)
+				h.Text = "only with the maintenance jobs spliced in (the same history without them has no such disagreement): " + h.Text
+				viol = append(viol, Violation{Scen: sc.ID, Path: fv.Path, Hit: h})
+				st.Promoted++
+			}
 		}
 	}
 	st.States = len(seen) + 1
